@@ -1,5 +1,810 @@
-//! C04 — not built yet.
+//! C04 — line breaking finds a solution iff one exists, and it is demerit-optimal.
+//! Engine: BEX. Reference model: `reftex::kp::Oracle` (tex.web §813-875 by brute force over every
+//! sequence of legal breakpoints). Two oracles per instance: end to end (Some iff feasible; the
+//! returned sequence, re-evaluated by the model, is feasible and minimal; looseness per §875) and per
+//! step through `debug::Logger` (every logged feasible breakpoint and every new active node carries
+//! the numbers the model computes). DESIGN.md §3 C04.
+
+#[path = "../../c15/src/conv.rs"]
+mod conv;
+mod selfval;
+
+use boxworks::ds;
+use boxworks_knuthplass::{debug, LineBreaker, Params};
+use common::{Glue, GlueOrder, Scaled};
+use conv::{ch, disc, glue, kern, pen};
+use reftex::kp;
+use serde_json::{json, Value};
+use vcore::{catch, Acc, Ctx, Level};
+
+const PT: i32 = 65536;
+/// DESIGN §3 C04 X: lists with more legal breakpoints than this are outside the bound.
+const MAX_BPS: usize = 12;
+
+struct NoHyph;
+impl boxworks::Hyphenator for NoHyph {
+    fn hyphenate(&self, _l: &mut Vec<ds::Horizontal>) {}
+}
+
+// ------------------------------------------------------------------------------- alphabet
+
+fn g(u: i32, w: i32, st: i32, sh: i32) -> ds::Horizontal {
+    glue(w * u, st * u, GlueOrder::Normal, sh * u, GlueOrder::Normal)
+}
+fn math(after: bool) -> ds::Horizontal {
+    ds::Horizontal::Math(if after { ds::Math::After } else { ds::Math::Before })
+}
+
+/// Inter-box items in which no legal breakpoint is directly followed by a discardable item.
+fn clean_menu(u: i32) -> Vec<Vec<ds::Horizontal>> {
+    vec![
+        vec![g(u, 2, 1, 1)],
+        vec![g(u, 2, 3, 0)],
+        vec![g(u, 1, 0, 1)],
+        vec![g(u, 2, 0, 0)],
+        vec![g(u, 3, 2, 2)],
+        vec![glue(u, u, GlueOrder::Fil, 0, GlueOrder::Normal)],
+        vec![g(u, -1, 1, 1)],
+        vec![glue(2 * u, u / 40, GlueOrder::Normal, u / 40, GlueOrder::Normal)],
+        vec![pen(0)],
+        vec![pen(50)],
+        vec![pen(-50)],
+        vec![pen(9999)],
+        vec![pen(10000), g(u, 2, 1, 1)],
+        vec![pen(-10000)],
+        vec![disc("-", "", 0)],
+        vec![disc("", "", 0)],
+        vec![disc("-", "c", 0)],
+        vec![disc("-", "b", 1), ch('c')],
+        vec![],
+        vec![kern(u, ds::KernKind::Normal)],
+        vec![kern(u, ds::KernKind::Explicit)],
+        vec![kern(u, ds::KernKind::Normal), g(u, 2, 1, 1)],
+        vec![math(false), g(u, 2, 1, 1), math(true)],
+        vec![g(u, 2, 1, 1), math(false), ch('c'), math(true)],
+        vec![disc("", "c", 0)],
+        vec![disc("", "", 1), ch('c')],
+        // two replaced nodes, the second a font kern
+        vec![disc("-", "b", 2), ch('c'), kern(u, ds::KernKind::Normal)],
+    ]
+}
+/// The 12 items used where the full menu would be too wide.
+fn reduced_menu(u: i32) -> Vec<Vec<ds::Horizontal>> {
+    let m = clean_menu(u);
+    [0usize, 1, 2, 4, 5, 9, 10, 13, 14, 16, 17, 18].iter().map(|i| m[*i].clone()).collect()
+}
+/// The 8 items of the looseness probe.
+fn looseness_menu(u: i32) -> Vec<Vec<ds::Horizontal>> {
+    let m = clean_menu(u);
+    [0usize, 1, 2, 4, 9, 14, 16, 18].iter().map(|i| m[*i].clone()).collect()
+}
+/// Items with a legal breakpoint directly followed by discardable material (glue glue, penalty
+/// glue, explicit kern glue, math-off glue, discretionary glue): the D10 alphabet, plus six clean ones.
+fn adjacent_menu(u: i32) -> Vec<Vec<ds::Horizontal>> {
+    let m = clean_menu(u);
+    let mut v = vec![
+        vec![g(u, 1, 1, 0), g(u, 1, 0, 1)],
+        vec![kern(u, ds::KernKind::Explicit), g(u, 2, 1, 1)],
+        vec![pen(0), g(u, 1, 1, 1)],
+        vec![pen(50), g(u, 2, 1, 1)],
+        vec![pen(0), g(u, 1, 1, 1), pen(20), g(u, 1, 1, 1)],
+        vec![disc("-", "", 0), g(u, 2, 1, 1)],
+        vec![math(false), ch('c'), math(true), g(u, 2, 1, 1)],
+        vec![g(u, 2, 1, 1), pen(-50), g(u, 1, 0, 0)],
+        vec![kern(-u, ds::KernKind::Explicit), g(u, 2, 1, 1)],
+        vec![g(u, 2, 1, 1), kern(u, ds::KernKind::Explicit), g(u, 1, 1, 1)],
+        // empty post-break: the glue after the replaced node is discarded too (§840)
+        vec![disc("-", "", 1), ch('c'), g(u, 2, 1, 1)],
+    ];
+    for i in [0usize, 1, 9, 14, 16, 18] {
+        v.push(m[i].clone());
+    }
+    v
+}
+
+fn menu_by_name(name: &str, u: i32) -> Vec<Vec<ds::Horizontal>> {
+    match name {
+        "clean" => clean_menu(u),
+        "reduced" => reduced_menu(u),
+        "looseness" => looseness_menu(u),
+        "adjacent" => adjacent_menu(u),
+        _ => unreachable!(),
+    }
+}
+
+/// How the list ends: the way `break_line` ends a paragraph (§816: \penalty10000 \parfillskip), or bare.
+fn finish_list(list: &mut Vec<ds::Horizontal>, u: i32, bare: bool) {
+    if !bare {
+        list.push(pen(10000));
+        list.push(glue(0, u, GlueOrder::Fil, 0, GlueOrder::Normal));
+    }
+}
+
+// ------------------------------------------------------------------------------- parameter sets
+
+#[derive(Debug)]
+struct PVar {
+    params: Params,
+    emergency: i32,
+    bare_end: bool,
+}
+impl Clone for PVar {
+    fn clone(&self) -> PVar {
+        PVar { params: clone_params(&self.params), emergency: self.emergency, bare_end: self.bare_end }
+    }
+}
+
+const N_SINGLES: usize = 15;
+/// fields touched by single change k (two changes of the same field are not combined)
+const FIELD_OF: [u8; N_SINGLES] = [0, 0, 1, 2, 3, 4, 4, 5, 5, 6, 7, 7, 8, 9, 3];
+
+fn apply_single(v: &mut PVar, k: usize, u: i32) {
+    let p = &mut v.params;
+    match k {
+        0 => p.adj_demerits = 0,
+        1 => p.adj_demerits = -10000,
+        2 => p.double_hyphen_demerits = 0,
+        3 => p.final_hyphen_demerits = 20000,
+        4 => p.line_penalty = 200,
+        5 => p.hyphen_penalty = 500,
+        6 => p.hyphen_penalty = -100,
+        7 => p.ex_hyphen_penalty = -10000,
+        8 => p.ex_hyphen_penalty = 10000,
+        9 => p.left_skip = Glue { width: Scaled(u), stretch: Scaled(u), ..Default::default() },
+        10 => p.right_skip = Glue { width: Scaled::ZERO, stretch: Scaled(2 * u), shrink: Scaled(u), ..Default::default() },
+        11 => p.right_skip = Glue { width: Scaled::ZERO, stretch: Scaled(u), stretch_order: GlueOrder::Fil, ..Default::default() },
+        12 => v.emergency = u,
+        13 => v.bare_end = true,
+        14 => p.line_penalty = -20,
+        _ => unreachable!(),
+    }
+}
+/// 0 = plain defaults; 1..=15 = one change; then every pair of changes of different fields.
+fn pvars(u: i32, pairs: bool) -> Vec<(String, PVar)> {
+    let base = PVar { params: Params::plain_tex_defaults(), emergency: 0, bare_end: false };
+    let mut out = vec![("plain".to_string(), base.clone())];
+    for k in 0..N_SINGLES {
+        let mut v = base.clone();
+        apply_single(&mut v, k, u);
+        out.push((format!("change {k}"), v));
+    }
+    if pairs {
+        for a in 0..N_SINGLES {
+            for b in a + 1..N_SINGLES {
+                if FIELD_OF[a] == FIELD_OF[b] {
+                    continue;
+                }
+                let mut v = base.clone();
+                apply_single(&mut v, a, u);
+                apply_single(&mut v, b, u);
+                out.push((format!("changes {a}+{b}"), v));
+            }
+        }
+    }
+    out
+}
+
+fn model_params(p: &Params, emergency: i32) -> kp::Params {
+    kp::Params {
+        line_penalty: p.line_penalty as i64,
+        hyphen_penalty: p.hyphen_penalty as i64,
+        ex_hyphen_penalty: p.ex_hyphen_penalty as i64,
+        adj_demerits: p.adj_demerits as i64,
+        double_hyphen_demerits: p.double_hyphen_demerits as i64,
+        final_hyphen_demerits: p.final_hyphen_demerits as i64,
+        looseness: p.looseness as i64,
+        left_skip: conv::glue_spec(&p.left_skip),
+        right_skip: conv::glue_spec(&p.right_skip),
+        emergency_stretch: emergency as i64,
+    }
+}
+fn glue_json(g: &Glue) -> Value {
+    json!([g.width.0, g.stretch.0, g.stretch_order as u8, g.shrink.0, g.shrink_order as u8])
+}
+fn glue_from_json(v: &Value) -> Glue {
+    let a: Vec<i64> = v.as_array().map(|a| a.iter().map(|x| x.as_i64().unwrap_or(0)).collect()).unwrap_or_else(|| vec![0; 5]);
+    Glue { width: Scaled(a[0] as i32), stretch: Scaled(a[1] as i32), stretch_order: conv::order(a[2] as u64), shrink: Scaled(a[3] as i32), shrink_order: conv::order(a[4] as u64) }
+}
+fn params_json(p: &Params) -> Value {
+    json!({"adj_demerits": p.adj_demerits, "double_hyphen_demerits": p.double_hyphen_demerits, "final_hyphen_demerits": p.final_hyphen_demerits,
+        "line_penalty": p.line_penalty, "hyphen_penalty": p.hyphen_penalty, "ex_hyphen_penalty": p.ex_hyphen_penalty, "looseness": p.looseness,
+        "left_skip": glue_json(&p.left_skip), "right_skip": glue_json(&p.right_skip)})
+}
+fn params_from_json(v: &Value) -> Params {
+    let mut p = Params::plain_tex_defaults();
+    let i = |k: &str, d: i32| v.get(k).and_then(|x| x.as_i64()).map(|x| x as i32).unwrap_or(d);
+    p.adj_demerits = i("adj_demerits", p.adj_demerits);
+    p.double_hyphen_demerits = i("double_hyphen_demerits", p.double_hyphen_demerits);
+    p.final_hyphen_demerits = i("final_hyphen_demerits", p.final_hyphen_demerits);
+    p.line_penalty = i("line_penalty", p.line_penalty);
+    p.hyphen_penalty = i("hyphen_penalty", p.hyphen_penalty);
+    p.ex_hyphen_penalty = i("ex_hyphen_penalty", p.ex_hyphen_penalty);
+    p.looseness = i("looseness", p.looseness);
+    if let Some(g) = v.get("left_skip") {
+        p.left_skip = glue_from_json(g);
+    }
+    if let Some(g) = v.get("right_skip") {
+        p.right_skip = glue_from_json(g);
+    }
+    p
+}
+
+// ------------------------------------------------------------------------------- one instance
+
+struct Inst {
+    list: Vec<ds::Horizontal>,
+    unit: i32,
+    /// line widths in sp
+    widths: Vec<i32>,
+    tolerance: i32,
+    params: Params,
+    emergency: i32,
+    force: bool,
+}
+
+impl Inst {
+    fn json(&self) -> Value {
+        json!({"kind": "kp", "list": conv::list_json(&self.list), "unit": self.unit, "widths": self.widths, "tolerance": self.tolerance,
+            "emergency_stretch": self.emergency, "force_solution": self.force, "params": params_json(&self.params), "text": conv::render(&self.list)})
+    }
+    fn from_json(v: &Value) -> Option<Inst> {
+        Some(Inst {
+            list: conv::list_from_json(&v["list"])?,
+            unit: v["unit"].as_i64()? as i32,
+            widths: v["widths"].as_array()?.iter().map(|x| x.as_i64().unwrap_or(0) as i32).collect(),
+            tolerance: v["tolerance"].as_i64()? as i32,
+            params: params_from_json(&v["params"]),
+            emergency: v["emergency_stretch"].as_i64().unwrap_or(0) as i32,
+            force: v["force_solution"].as_bool().unwrap_or(false),
+        })
+    }
+}
+
+enum Ev {
+    Feasible { elem: usize, prev: usize, b: i32, p: i32, d: i32, artificial: bool },
+    Node { index: usize, line: usize, fit: u8, hyph: bool, total: i32, prev: usize },
+    Selected(usize),
+}
+#[derive(Default)]
+struct Log(Vec<Ev>);
+impl debug::Logger for Log {
+    fn log_attempt(&mut self, _a: debug::Attempt) {}
+    fn log_feasible_breakpoint(&mut self, _l: &[ds::Horizontal], fb: debug::FeasibleBreakpoint) {
+        self.0.push(Ev::Feasible { elem: fb.elem_index, prev: fb.previous_node_index, b: fb.badness, p: fb.penalty, d: fb.demerits, artificial: fb.artificial_demerits });
+    }
+    fn log_new_active_node(&mut self, an: debug::NewActiveNode) {
+        self.0.push(Ev::Node { index: an.node_index, line: an.line_number, fit: an.fitness_class, hyph: an.hyphenated, total: an.total_demerits, prev: an.previous_node_index });
+    }
+    fn log_selected_node(&mut self, node_index: usize) {
+        self.0.push(Ev::Selected(node_index));
+    }
+}
+
+#[derive(Clone, Copy)]
+struct NodeInfo {
+    elem: Option<usize>,
+    line: usize,
+    fit: u8,
+    hyph: bool,
+    total: i64,
+    prev: usize,
+}
+
+/// The per-step oracle. Returns (number of logged feasible breakpoints checked, first disagreement).
+fn check_steps(o: &kp::Oracle, log: &Log, got: Option<&Vec<usize>>) -> (u64, Option<(String, String)>) {
+    let mut table = vec![NodeInfo { elem: None, line: 0, fit: kp::DECENT, hyph: false, total: 0, prev: 0 }];
+    // feasible breakpoints logged at the current position: (prev node, model fitness, model total)
+    let mut pending: Vec<(usize, u8, i64)> = vec![];
+    let mut cur_elem = usize::MAX;
+    let mut steps = 0u64;
+    let bad = |b: i64| if b > reftex::arith::INF_BAD { "*".to_string() } else { b.to_string() };
+    for ev in &log.0 {
+        match ev {
+            Ev::Feasible { elem, prev, b, p, d, artificial } => {
+                if *elem != cur_elem {
+                    pending.clear();
+                    cur_elem = *elem;
+                }
+                steps += 1;
+                let Some(pn) = table.get(*prev).copied() else {
+                    return (steps, Some(("bookkeeping".into(), format!("feasible breakpoint at node {elem} names the unknown predecessor @@{prev}"))));
+                };
+                let (Some(a), Some(bi)) = (o.start_of(pn.elem), o.bp_at(*elem)) else {
+                    return (steps, Some(("breakpoint".into(), format!("a break is tried at node {elem}, which is not a legal breakpoint (TeX §866-869)"))));
+                };
+                if bi < a {
+                    return (steps, Some(("bookkeeping".into(), format!("break at node {elem} does not follow its predecessor @@{prev}"))));
+                }
+                if (a..bi).any(|f| o.bps[f].penalty <= kp::EJECT_PENALTY) {
+                    return (steps, Some(("breakpoint".into(), format!("the line @@{prev} -> node {elem} passes over a forced break"))));
+                }
+                let bp = o.bps[bi];
+                let (mb, mfit) = o.fit(a, bi, pn.line + 1);
+                if *artificial {
+                    // §854: only in a forced final pass; demerits count as 0
+                    pending.push((*prev, mfit, pn.total));
+                    continue;
+                }
+                if *b as i64 != mb {
+                    return (steps, Some(("badness".into(), format!("@ node {elem} via @@{prev} (line {}): logged b={} p={p} d={d}, model b={} [line measures {:?}, width {}]", pn.line + 1, bad(*b as i64), bad(mb), o.meas[a][bi], o.line_width(pn.line + 1)))));
+                }
+                if mb > o.threshold || mb > reftex::arith::INF_BAD {
+                    return (steps, Some(("feasibility".into(), format!("@ node {elem} via @@{prev}: a break with badness {} is logged as feasible, threshold {}", bad(mb), o.threshold))));
+                }
+                if *p as i64 != bp.penalty {
+                    return (steps, Some(("penalty".into(), format!("@ node {elem} via @@{prev}: logged p={p}, model p={}", bp.penalty))));
+                }
+                let md = o.demerits(mb, &bp, pn.fit, mfit, pn.hyph);
+                if *d as i64 != md {
+                    return (steps, Some(("demerits".into(), format!("@ node {elem} via @@{prev}: logged b={b} p={p} d={d}, model d={md} (fitness {} -> {mfit}, hyphenated {} -> {})", pn.fit, pn.hyph, bp.hyph))));
+                }
+                pending.push((*prev, mfit, pn.total + md));
+            }
+            Ev::Node { index, line, fit, hyph, total, prev } => {
+                if *index != table.len() {
+                    return (steps, Some(("bookkeeping".into(), format!("new active node @@{index} is not the next passive node ({})", table.len()))));
+                }
+                let Some(pn) = table.get(*prev).copied() else {
+                    return (steps, Some(("bookkeeping".into(), format!("@@{index} names the unknown predecessor @@{prev}"))));
+                };
+                let hy = o.bp_at(cur_elem).map(|b| o.bps[b].hyph);
+                let ok = pending.iter().any(|(pp, mfit, mt)| pp == prev && *mfit == *fit && *mt == *total as i64);
+                if !ok || *line != pn.line + 1 || Some(*hyph) != hy {
+                    return (steps, Some(("active node".into(), format!("@@{index}: line {line}.{fit}{} t={total} -> @@{prev} at node {cur_elem} matches no feasible break logged there with the model's fitness class and total {:?} (predecessor line {}, break hyphenated {:?})", if *hyph { "-" } else { "" }, pending, pn.line, hy))));
+                }
+                table.push(NodeInfo { elem: Some(cur_elem), line: *line, fit: *fit, hyph: *hyph, total: *total as i64, prev: *prev });
+            }
+            Ev::Selected(n) => {
+                // the returned breaks are the chain of predecessors of the selected node
+                let mut chain = vec![];
+                let mut i = *n;
+                while i > 0 {
+                    let Some(t) = table.get(i) else { break };
+                    chain.push(t.elem.unwrap_or(usize::MAX));
+                    i = t.prev;
+                }
+                chain.reverse();
+                if got != Some(&chain) {
+                    return (steps, Some(("bookkeeping".into(), format!("returned breaks {got:?} are not the predecessor chain {chain:?} of the selected node @@{n}"))));
+                }
+            }
+        }
+    }
+    (steps, None)
+}
+
+/// Triage aid: `C04_DEBUG_CLASS=<substring>` prints the first 8 cases of the matching outcome classes.
+fn debug_class(cls: &str, text: &dyn Fn() -> String) {
+    use std::sync::atomic::{AtomicU32, Ordering};
+    static N: AtomicU32 = AtomicU32::new(0);
+    if let Ok(want) = std::env::var("C04_DEBUG_CLASS") {
+        if cls.contains(&want) && N.fetch_add(1, Ordering::Relaxed) < 8 {
+            eprintln!("DEBUG {cls}: {}", text());
+        }
+    }
+}
+
+fn check_instance(idx: u64, inst: &Inst, acc: &mut Acc) {
+    acc.eval();
+    let font = conv::Font { unit: inst.unit };
+    let mlist = match conv::to_model(&inst.list, &conv::font_fn(inst.unit)) {
+        Ok(m) => m,
+        Err(_) => {
+            acc.skipped += 1;
+            return;
+        }
+    };
+    let mp = model_params(&inst.params, inst.emergency);
+    let widths: Vec<i64> = inst.widths.iter().map(|w| *w as i64).collect();
+    let o = kp::Oracle::new(&mlist, &mp, &widths, inst.tolerance as i64);
+    if o.bps.len() > MAX_BPS {
+        acc.skipped += 1;
+        acc.count("skipped_more_than_12_breakpoints");
+        return;
+    }
+    // the premise of the property
+    if !o.monotone() {
+        acc.skipped += 1;
+        acc.count("skipped_non_monotone");
+        return;
+    }
+    let br = o.brute();
+    // TeX keeps totals below awful_bad = 2^30-1 (§833) and offers no defence beyond that
+    if br.max_abs_total + mp.adj_demerits.abs() >= kp::AWFUL_BAD {
+        acc.skipped += 1;
+        acc.count("skipped_totals_reach_awful_bad");
+        return;
+    }
+    if inst.force && br.feasible == 0 {
+        // §854 artificial demerits: the property is stated for force_solution = false
+        acc.skipped += 1;
+        acc.count("skipped_forced_pass_without_feasible_sequence");
+        return;
+    }
+    // expectation
+    let loose = mp.looseness;
+    let want: Option<(usize, i64)> = match kp::looseness_choice(&br.per_count, loose) {
+        None => None,
+        Some((lines, actual)) => {
+            if loose != 0 && actual != loose && !inst.force {
+                None
+            } else {
+                Some((lines, br.per_count[&lines]))
+            }
+        }
+    };
+    // N and the collision counters, all from the model
+    if br.feasible >= 2 && br.totals_differ {
+        acc.nontrivial();
+    }
+    if br.feasible >= 2 && (br.best_ties >= 2 || br.fitness_diverges) {
+        acc.count("two_feasible_sequences_tie_or_differ_by_fitness_class");
+    }
+    if br.best_pays_adj {
+        acc.count("optimum_pays_adj_demerits");
+    }
+    if br.best_uses_disc {
+        acc.count("optimum_breaks_at_a_discretionary");
+    }
+    if br.best_consecutive_hyphens {
+        acc.count("optimum_has_consecutive_hyphenated_breaks");
+    }
+    if br.feasible == 0 {
+        acc.count("no_feasible_sequence");
+    }
+    if let (Some((lines, _)), Some((_, best))) = (&want, &br.best) {
+        if loose != 0 && *lines != best.len() {
+            acc.count("looseness_changed_the_line_count");
+        }
+    }
+    if loose != 0 && want.is_none() && br.feasible > 0 {
+        acc.count("looseness_not_reachable");
+    }
+    if inst.widths.len() > 1 && br.best.as_ref().map(|b| b.1.len() > inst.widths.len()).unwrap_or(false) {
+        acc.count("optimum_runs_past_the_listed_line_widths");
+    }
+
+    // the real thing
+    let widths_s: Vec<Scaled> = inst.widths.iter().map(|w| Scaled(*w)).collect();
+    let mut log = Log::default();
+    let res = {
+        let mut lb = LineBreaker { params: &inst.params, line_widths: &widths_s, line_indents: &[], debug_logger: Some(&mut log), hyphenator: &NoHyph };
+        catch(|| lb.break_line_single_attempt(&inst.list, &font, inst.tolerance, Scaled(inst.emergency), inst.force))
+    };
+    let want_text = || match (&want, &br.best) {
+        (None, _) => format!("None ({} feasible sequence(s){})", br.feasible, if loose != 0 { format!(", per line count {:?}, looseness {loose}", br.per_count) } else { String::new() }),
+        (Some((lines, t)), Some((_, seq))) => format!("Some: {lines} line(s), total demerits {t} (e.g. {:?}; {} feasible, per line count {:?})", if loose == 0 { seq.clone() } else { vec![] }, br.feasible, br.per_count),
+        _ => unreachable!(),
+    };
+    let got = match res {
+        Ok(gv) => gv,
+        Err(p) => {
+            let cls = "FAIL panic";
+            acc.class(cls);
+            debug_class(cls, &|| format!("{} | {}", vcore::compact(&inst.json(), 1200), p.describe()));
+            conv::witness::offer(acc, cls, idx, || vcore::Fail { idx, case: inst.json(), expected: want_text(), observed: p.describe(), note: "break_line_single_attempt panicked".into() });
+            return;
+        }
+    };
+    // end-to-end oracle
+    let e2e: Option<(&'static str, String)> = match (&want, &got) {
+        (None, None) => None,
+        (Some(_), None) => Some(("impl None, model Some", "None".into())),
+        (None, Some(gv)) => Some(("impl Some, model None", match o.eval(gv) {
+            Ok(t) => format!("Some({gv:?}), which the model evaluates as feasible with total {t} but the looseness rule excludes"),
+            Err(e) => format!("Some({gv:?}): {e}"),
+        })),
+        (Some((lines, t)), Some(gv)) => match o.eval(gv) {
+            Err(e) => Some(("returned sequence infeasible", format!("Some({gv:?}): {e}"))),
+            Ok(gt) if loose != 0 && gv.len() != *lines => Some(("wrong number of lines", format!("Some({gv:?}): {} lines, total {gt}", gv.len()))),
+            Ok(gt) if gt != *t => Some((if gt > *t { "suboptimal" } else { "better than the model's optimum" }, format!("Some({gv:?}): total demerits {gt}"))),
+            Ok(_) => None,
+        },
+    };
+    // per-step oracle
+    let (steps, step) = check_steps(&o, &log, got.as_ref());
+    acc.count_n("logged_feasible_breakpoints_checked", steps);
+    if e2e.is_none() && step.is_none() {
+        acc.class(&format!("ok {} lines={} bps={}", if got.is_some() { "Some" } else { "None" }, got.as_ref().map(|gv| gv.len()).unwrap_or(0).min(9), o.bps.len()));
+        return;
+    }
+    let cls = format!("FAIL e2e: {} / step: {}", e2e.as_ref().map(|e| e.0).unwrap_or("ok"), step.as_ref().map(|s| s.0.as_str()).unwrap_or("ok"));
+    acc.class(&cls);
+    let observed = || format!("{}{}", e2e.as_ref().map(|e| e.1.clone()).unwrap_or_else(|| format!("{got:?} (end to end as expected)")), step.as_ref().map(|s| format!(" | per step: {}", s.1)).unwrap_or_default());
+    debug_class(&cls, &|| format!("{} | want {} | got {}", vcore::compact(&inst.json(), 1500), want_text(), observed()));
+    conv::witness::offer(acc, &cls, idx, || vcore::Fail { idx, case: inst.json(), expected: want_text(), observed: observed(), note: cls.clone() });
+}
+
+// ------------------------------------------------------------------------------- instance spaces
+
+/// A product space of instances, index-addressable.
+struct Space {
+    name: &'static str,
+    what: String,
+    menu: &'static str,
+    nb: usize,
+    units: Vec<i32>,
+    /// line widths in units
+    widths: Vec<Vec<i32>>,
+    tolerances: Vec<i32>,
+    pairs: bool,
+    /// which parameter sets (indices into `pvars`); empty = all
+    pvar_sel: Vec<usize>,
+    loosenesses: Vec<i32>,
+    forces: Vec<bool>,
+}
+
+impl Space {
+    fn n_pvars(&self) -> usize {
+        if self.pvar_sel.is_empty() {
+            pvars(PT, self.pairs).len()
+        } else {
+            self.pvar_sel.len()
+        }
+    }
+    fn radices(&self) -> Vec<u64> {
+        let k = menu_by_name(self.menu, PT).len() as u64;
+        let mut r = vec![k; self.nb - 1];
+        r.extend(vec![2u64; self.nb]);
+        r.push(self.units.len() as u64);
+        r.push(self.widths.len() as u64);
+        r.push(self.tolerances.len() as u64);
+        r.push(self.n_pvars() as u64);
+        r.push(self.loosenesses.len() as u64);
+        r.push(self.forces.len() as u64);
+        r
+    }
+    fn bounds(&self) -> String {
+        format!(
+            "{}: {} boxes (each 5u or 3u wide) joined by every choice from the '{}' menu ({} items); unit u in {:?} sp; line widths (in u) {:?}; tolerance in {:?}; {} parameter set(s){}; looseness in {:?}; force_solution in {:?}",
+            self.what,
+            self.nb,
+            self.menu,
+            menu_by_name(self.menu, PT).len(),
+            self.units,
+            self.widths,
+            self.tolerances,
+            self.n_pvars(),
+            if self.pairs { " (plain, 15 single changes, all pairs of changes of different fields)" } else { " (plain + single changes)" },
+            self.loosenesses,
+            self.forces
+        )
+    }
+    fn run(&self, ctx: &mut Ctx, family_no: u64) {
+        let rad = self.radices();
+        let n = vcore::product(&rad);
+        let nb = self.nb;
+        conv::witness::run_family(ctx, family_no, self.name, &self.bounds(), n, |r, acc| {
+            // ds::Horizontal is not Sync: menus and parameter sets are rebuilt per range
+            let menus: Vec<Vec<Vec<ds::Horizontal>>> = self.units.iter().map(|u| menu_by_name(self.menu, *u)).collect();
+            let pv: Vec<Vec<(String, PVar)>> = self.units.iter().map(|u| pvars(*u, self.pairs)).collect();
+            for i in r {
+                let d = vcore::digits(i, &rad);
+                let (seps, rest) = d.split_at(nb - 1);
+                let (boxes, rest) = rest.split_at(nb);
+                let ui = rest[0] as usize;
+                let u = self.units[ui];
+                let mut list = vec![];
+                for k in 0..nb {
+                    list.push(ch(if boxes[k] == 0 { 'a' } else { 'b' }));
+                    if k + 1 < nb {
+                        list.extend(menus[ui][seps[k] as usize].iter().cloned());
+                    }
+                }
+                let pi = if self.pvar_sel.is_empty() { rest[3] as usize } else { self.pvar_sel[rest[3] as usize] };
+                let var = &pv[ui][pi].1;
+                finish_list(&mut list, u, var.bare_end);
+                let mut params = clone_params(&var.params);
+                params.looseness = self.loosenesses[rest[4] as usize];
+                let inst = Inst { list, unit: u, widths: self.widths[rest[1] as usize].iter().map(|w| w * u).collect(), tolerance: self.tolerances[rest[2] as usize], params, emergency: var.emergency, force: self.forces[rest[5] as usize] };
+                check_instance(i, &inst, acc);
+                if i % 400009 == 17 {
+                    acc.sample(i, || json!({"list": conv::render(&inst.list), "widths": inst.widths, "tolerance": inst.tolerance, "parameter_set": pv[ui][pi].0}));
+                }
+            }
+        });
+    }
+}
+
+fn clone_params(p: &Params) -> Params {
+    Params { left_skip: p.left_skip, right_skip: p.right_skip, par_fill_skip: p.par_fill_skip, emergency_stretch: p.emergency_stretch, ..*p }
+}
+
+const SP40: i32 = 40 * PT;
+
+fn spaces(quick: bool) -> Vec<Space> {
+    let w6 = vec![vec![9], vec![12], vec![7, 12], vec![12, 7], vec![12, 9, 7], vec![7, 12, 9]];
+    vec![
+        Space {
+            name: "clean-core",
+            what: "no breakpoint is followed by a discardable item".into(),
+            menu: "clean",
+            nb: if quick { 4 } else { 5 },
+            units: vec![PT],
+            widths: if quick { w6.clone() } else { vec![vec![9], vec![12], vec![12, 7], vec![7, 12, 9]] },
+            tolerances: if quick { vec![-1, 0, 100, 200, 10000] } else { vec![0, 200, 10000] },
+            pairs: false,
+            pvar_sel: vec![0],
+            loosenesses: vec![0],
+            forces: vec![false],
+        },
+        Space {
+            name: "clean-units",
+            what: "the three branches of badness (u = 40pt, 1sp)".into(),
+            menu: "clean",
+            nb: if quick { 3 } else { 4 },
+            units: vec![SP40, 1],
+            widths: w6.clone(),
+            tolerances: vec![0, 100, 200, 10000],
+            pairs: false,
+            pvar_sel: vec![0, 10, 13],
+            loosenesses: vec![0],
+            forces: vec![false],
+        },
+        Space {
+            name: "clean-params",
+            what: "demerit and penalty parameters, skips, emergency stretch, bare list end".into(),
+            menu: "reduced",
+            nb: 4,
+            units: vec![PT],
+            widths: vec![vec![9], vec![12], vec![12, 7]],
+            tolerances: vec![200, 10000],
+            pairs: !quick,
+            pvar_sel: vec![],
+            loosenesses: vec![0],
+            forces: vec![false],
+        },
+        Space {
+            name: "looseness",
+            what: "non-zero looseness (§875), also in a forced pass when a feasible sequence exists".into(),
+            menu: "looseness",
+            nb: if quick { 4 } else { 5 },
+            units: vec![PT],
+            widths: vec![vec![9], vec![12], vec![16], vec![9, 12]],
+            tolerances: vec![200, 10000],
+            pairs: false,
+            pvar_sel: vec![0],
+            loosenesses: vec![1, -1, 2, -2],
+            forces: vec![false, true],
+        },
+        Space {
+            name: "adjacent-discardables",
+            what: "breakpoints directly followed by discardable items (glue glue, penalty glue, explicit kern glue, math glue, discretionary glue)".into(),
+            menu: "adjacent",
+            nb: if quick { 3 } else { 4 },
+            units: vec![PT],
+            widths: w6.clone(),
+            tolerances: vec![100, 200, 10000],
+            pairs: false,
+            pvar_sel: vec![0, 10, 11],
+            loosenesses: vec![0],
+            forces: vec![false],
+        },
+        Space {
+            name: "adjacent-discardables-4",
+            what: "the same alphabet, one box more, plain parameters".into(),
+            menu: "adjacent",
+            nb: if quick { 4 } else { 5 },
+            units: vec![PT],
+            widths: if quick { vec![vec![9], vec![12, 7]] } else { vec![vec![9], vec![12], vec![12, 7]] },
+            tolerances: vec![200, 10000],
+            pairs: false,
+            pvar_sel: vec![0],
+            loosenesses: vec![0],
+            forces: vec![false],
+        },
+        Space {
+            name: "tolerance-above-inf-bad",
+            what: "tolerance beyond inf_bad (TeX §863 clamps the threshold to 10000)".into(),
+            menu: "reduced",
+            nb: if quick { 3 } else { 4 },
+            units: vec![PT],
+            widths: w6,
+            tolerances: vec![10001, 20000],
+            pairs: false,
+            pvar_sel: vec![0],
+            loosenesses: vec![0],
+            forces: vec![false],
+        },
+    ]
+}
+
+/// (shortfall t, stretch = shrink s): every small pair, and the neighbourhoods of every branch and
+/// threshold of `badness` (§108: t = 7230584, s = 1663497, r = 1290) and of the fitness classes
+/// (badness 12/13 and 99/100, §852-853).
+fn badness_grid() -> Vec<(i64, i64)> {
+    let mut v = vec![];
+    for s in 1..=48i64 {
+        for t in 0..=240i64 {
+            v.push((t, s));
+        }
+    }
+    for s in [65536i64, 98304, 131072, 1663496, 1663497, 1663498, 3000000] {
+        let mut ts: Vec<i64> = vec![7230583, 7230584, 7230585, 7230586, 14461168];
+        // r = 297 t / s: badness 12|13 at r = 148|149, 99|100 at r = 296|297; inf_bad beyond r = 1290
+        for r in [0i64, 1, 2, 100, 147, 148, 149, 150, 295, 296, 297, 298, 640, 1288, 1289, 1290, 1291, 1292] {
+            let t0 = (r * s + 296) / 297;
+            for d in -1..=1 {
+                ts.push(t0 + d);
+            }
+            // second branch of §108: r = t / (s / 297)
+            let t1 = r * (s / 297);
+            for d in -1..=1 {
+                ts.push(t1 + d);
+            }
+        }
+        ts.sort();
+        ts.dedup();
+        for t in ts {
+            if (0..=15_000_000).contains(&t) {
+                v.push((t, s));
+            }
+        }
+    }
+    v
+}
+
+/// One line `a glue a` whose glue has stretch = shrink = s, set in a line that is t too long
+/// (stretching) or t too short (shrinking): the logged badness, fitness class and demerits of the
+/// full line run through every branch of TeX's badness function.
+fn badness_sweep(ctx: &mut Ctx, family_no: u64) {
+    let grid = badness_grid();
+    let n = grid.len() as u64 * 2;
+    conv::witness::run_family(ctx, family_no, "badness-sweep", &format!("the line 'a glue a' (no \\parfillskip) with glue stretch = shrink = s and |line width - natural width| = t, stretching and shrinking: every (t, s) with s in 1..=48 sp, t in 0..=240 sp, and t within 1 sp of every threshold of badness() and of the fitness classes for s in {{1pt, 1.5pt, 2pt, 1663496..1663498 sp, 3000000 sp}} ({} pairs); tolerance 10000", grid.len()), n, |r, acc| {
+        const G: i32 = 20_000_000;
+        for i in r {
+            let (t, s) = grid[(i / 2) as usize];
+            let shrink = i % 2 == 1;
+            let list = vec![ch('a'), glue(G, s as i32, GlueOrder::Normal, s as i32, GlueOrder::Normal), ch('a')];
+            let nat = G + 10;
+            let width = if shrink { nat - t as i32 } else { nat + t as i32 };
+            let inst = Inst { list, unit: 1, widths: vec![width], tolerance: 10000, params: Params::plain_tex_defaults(), emergency: 0, force: false };
+            check_instance(i, &inst, acc);
+        }
+    });
+}
+
 fn main() {
-    eprintln!("c04: check not built yet");
-    std::process::exit(2);
+    let mut ctx = Ctx::new("C04", Level::Exploration);
+    ctx.assume("the premise of the property is checked per instance by the model: for every line start and every line number, 'the line is overfull' is upward closed in the line end; other instances are skipped and counted (skipped_non_monotone)");
+    ctx.assume("a line's width, stretch and shrink are what TeX's try_break measures (§823, §837-844): background + totals up to the break - totals up to the previous break - the discardable items that follow the previous break; this is the definition the demerits of the property refer to");
+    ctx.assume("lists have at most 12 legal breakpoints (every sequence of them is enumerated); glue in a paragraph has finite shrink (§825 makes anything else an error); discretionary lists are characters, the nodes a discretionary replaces are characters or font kerns (a directed probe shows the crate examines replaced nodes as ordinary nodes, so a replaced *explicit* kern followed by glue becomes a breakpoint where TeX §869 passes over it - outside the enumerated alphabet, reported in the build notes)");
+    ctx.assume("total demerits stay below awful_bad = 2^30-1 (§833; TeX itself has no defence beyond it): instances where some feasible prefix reaches it are skipped and counted");
+    ctx.assume("force_solution = true is only exercised when a feasible sequence exists (the artificial-demerits rescue of §854 is outside the property, which is stated for force_solution = false)");
+    ctx.assume("the per-step oracle trusts nothing of the log: the table of active nodes is rebuilt from the log, and every logged node must be explained by a feasible break logged at the same position whose fitness class and total the model computes itself");
+
+    if let Some((_fam, case)) = ctx.replay_case() {
+        let mut acc = Acc::default();
+        match Inst::from_json(&case) {
+            Some(inst) => check_instance(0, &inst, &mut acc),
+            None => {
+                eprintln!("replay: cannot decode the case");
+                std::process::exit(2);
+            }
+        }
+        conv::witness::collect(&mut acc, 0);
+        ctx.finish_replay(acc);
+    }
+
+    let sv = selfval::run(&mut ctx);
+    ctx.extra("model_self_validation", sv);
+
+    let quick = ctx.quick();
+    let sp = spaces(quick);
+    for (k, s) in sp.iter().enumerate() {
+        s.run(&mut ctx, k as u64);
+    }
+    badness_sweep(&mut ctx, sp.len() as u64);
+
+    ctx.require("two_feasible_sequences_tie_or_differ_by_fitness_class", "two or more feasible sequences tie for the optimum, or some breakpoint is reached in two fitness classes");
+    ctx.require("optimum_pays_adj_demerits", "the optimum contains adjacent lines of incompatible fitness classes");
+    ctx.require("optimum_breaks_at_a_discretionary", "the optimum uses a discretionary break");
+    ctx.require("optimum_has_consecutive_hyphenated_breaks", "the optimum has two hyphenated breaks in a row (double- or final-hyphen demerits paid)");
+    ctx.require("looseness_changed_the_line_count", "non-zero looseness selects a different number of lines than the optimum has");
+    ctx.require("looseness_not_reachable", "the requested looseness cannot be reached although feasible sequences exist");
+    ctx.require("no_feasible_sequence", "no sequence of breaks is feasible (the answer must be None)");
+    ctx.require("optimum_runs_past_the_listed_line_widths", "the optimum has more lines than the width sequence lists (line classes merge)");
+    ctx.require("skipped_non_monotone", "the model detects instances outside the monotonicity premise");
+    ctx.require("logged_feasible_breakpoints_checked", "feasible breakpoints reported through debug::Logger and checked against the model");
+    ctx.finish("one evaluation = one call of break_line_single_attempt on an enumerated (list, line widths, tolerance, parameters) instance, judged end to end against the brute-force optimum over every sequence of legal breakpoints and per step against the model's badness/penalty/demerits for every logged feasible breakpoint; non-trivial = at least two feasible sequences with different total demerits");
 }
